@@ -4,6 +4,9 @@ From Coq Require Import List NArith ZArith Permutation.
 From Coq.Strings Require Import Byte.
 From SP Require Import Bytes Params Msgpack Crypto Errors Packets Chunker Rand Verify Encrypt Decrypt Signcrypt SigncryptProofs.
 From SP Require Import BaseX Encodings Armor ArmorProofs ArmoredForms.
+From SP Require Import GoLang GoLang2 GoAst GoAstProofs GoAstProofs2 GoAstProofs3 GoAstProofs4a.
+From Coq Require String.
+Import String.StringSyntax.
 Import ListNotations.
 Open Scope N_scope.
 
@@ -102,6 +105,63 @@ Theorem C03_armored_form_agrees (c : crypto) (kr : keyring) (signers : sigring) 
   bind (signcrypt_open_all c kr signers rv wire) (fun r => Ok (fst r, snd r, brand)).
 Proof. exact (armored_signcrypt_agrees c kr signers rv wire brand). Qed.
 
+(* SOURCE TIE (stateful functions): the terms f_saltpack_signcryptOpenStream_* are generated on every run
+   from the Go syntax trees of /repo's signcryptOpenStream.processHeader, tryBoxSecretKeys and
+   trySharedSymmetricKeys.  Under the Go semantics of model/GoLang2.v, with the keyring, resolver and
+   primitives interpreted over the crypto record and the model's keyring/resolver, they compute exactly
+   what the model's signcryption receiver does with a header, for ALL headers, keyrings, signer rings and
+   resolvers: the same error class, and on success the payload key and the signer (or anonymity) left in
+   the receiver object; the two key searches return the model's sc_try_box / sc_try_sym and leave the
+   receiver object unchanged. *)
+Theorem C03_source_processHeader (c : crypto) (kr : keyring) (signers : sigring) (rv : resolver) (hh : bytes) (h : header) :
+  let r := run_func2 (ext_sc_process c kr signers rv) f_saltpack_signcryptOpenStream_processHeader
+                     [g_sos0 hh rv; g_enc_header h] in
+  match process_sc_header c kr signers rv h with
+  | Err e => g_sc_hdr_err (fst r) = Some e
+  | Ok (pkey, signer) =>
+    fst r = ORet [VNil] /\ lookup "sos" (snd r) = Some (g_sos pkey hh signer rv)
+  end.
+Proof. exact (go_signcrypt_processHeader c kr signers rv hh h). Qed.
+
+Theorem C03_source_tryBoxSecretKeys (c : crypto) (kr : keyring) (rv : resolver) (hh : bytes) (h : header) (eph : bytes) :
+  (N.of_nat (List.length (h_rcvs h)) < 9223372036854775808)%N ->
+  let r := run_func2 (ext_sc_try c kr rv) f_saltpack_signcryptOpenStream_tryBoxSecretKeys
+                     [g_sos0 hh rv; g_enc_header h; VBytes eph] in
+  option_map ORet (g_of_sc_try (sc_try_box c (sc_derived_keys c kr eph) (h_rcvs h) 0)) = Some (fst r) /\
+  lookup "sos" (snd r) = Some (g_sos0 hh rv).
+Proof. exact (go_tryBoxSecretKeys c kr rv hh h eph). Qed.
+
+Theorem C03_source_trySharedSymmetricKeys (c : crypto) (kr : keyring) (rv : resolver) (hh : bytes) (h : header) (eph : bytes) :
+  (forall k x, (32 <= List.length (hmac512 c k x))%nat) ->
+  resolver_ok rv ->
+  (N.of_nat (List.length (h_rcvs h)) < 9223372036854775808)%N ->
+  let r := run_func2 (ext_sc_try c kr rv) f_saltpack_signcryptOpenStream_trySharedSymmetricKeys
+                     [g_sos0 hh rv; g_enc_header h; VBytes eph] in
+  option_map ORet (g_of_sc_try (sc_try_sym_rv c rv eph (h_rcvs h))) = Some (fst r) /\
+  lookup "sos" (snd r) = Some (g_sos0 hh rv).
+Proof. exact (go_trySharedSymmetricKeys c kr rv hh h eph). Qed.
+
+(* the meaning processHeader's externs give the two key searches IS the outcome of the translated methods *)
+Local Open Scope string_scope.
+Theorem C03_source_processHeader_composes (c : crypto) (kr : keyring) (signers : sigring) (rv : resolver) (hh : bytes) (h : header) (eph : bytes) :
+  (forall k x, (32 <= List.length (hmac512 c k x))%nat) ->
+  resolver_ok rv ->
+  (N.of_nat (List.length (h_rcvs h)) < 9223372036854775808)%N ->
+  option_map ORet (ext_sc_process c kr signers rv "signcryptOpenStream.tryBoxSecretKeys" [g_sos0 hh rv; g_enc_header h; VBytes eph])
+  = Some (fst (run_func2 (ext_sc_try c kr rv) f_saltpack_signcryptOpenStream_tryBoxSecretKeys [g_sos0 hh rv; g_enc_header h; VBytes eph])) /\
+  option_map ORet (ext_sc_process c kr signers rv "signcryptOpenStream.trySharedSymmetricKeys" [g_sos0 hh rv; g_enc_header h; VBytes eph])
+  = Some (fst (run_func2 (ext_sc_try c kr rv) f_saltpack_signcryptOpenStream_trySharedSymmetricKeys [g_sos0 hh rv; g_enc_header h; VBytes eph])).
+Proof.
+  intros Hh Hr Hl. split.
+  - exact (ext_sc_process_tryBox c kr signers rv hh h eph Hl).
+  - exact (ext_sc_process_trySym c kr signers rv hh h eph Hh Hr Hl).
+Qed.
+Local Close Scope string_scope.
+
+Print Assumptions C03_source_processHeader.
+Print Assumptions C03_source_tryBoxSecretKeys.
+Print Assumptions C03_source_trySharedSymmetricKeys.
+Print Assumptions C03_source_processHeader_composes.
 Print Assumptions C03_armored_form_agrees.
 Print Assumptions C03_sender_structure.
 Print Assumptions C03_roundtrip_box.
